@@ -7,7 +7,33 @@ From Verif Require Import PyObj Gen_PyObj PyObjThm PyObjThmRt.
 Import ListNotations.
 Open Scope Z_scope.
 
-Notation TGf := (set_text_guard true (set_precheck true TG)).
+(* record update for the third fix fact (PyObj.v has helpers for the other two) *)
+Definition set_nd_only (b : bool) (T : tmpl) : tmpl :=
+  {| t_int_check := t_int_check T; t_float_check := t_float_check T; t_float_nonfinite_ok := t_float_nonfinite_ok T;
+     t_float_check_below := t_float_check_below T; t_cmp_fixed := t_cmp_fixed T; t_cmp_var := t_cmp_var T;
+     t_len_bytes := t_len_bytes T; t_len_nd := t_len_nd T; t_len_slow := t_len_slow T; t_bytes_max_w := t_bytes_max_w T;
+     t_comp_isinstance := t_comp_isinstance T; t_union_clear_others := t_union_clear_others T;
+     t_union_clear_after := t_union_clear_after T; t_union_ctor_count := t_union_ctor_count T;
+     t_arr_precheck := t_arr_precheck T; t_precheck_nd_only := b; t_text_guard := t_text_guard T |}.
+
+(* the fixed template: all three fix facts true, everything else as scanned *)
+Notation TGf := (set_text_guard true (set_nd_only true (set_precheck true TG))).
+
+Theorem tmpl_live3 : TG = set_text_guard (t_text_guard TG) (set_nd_only (t_precheck_nd_only TG) (set_precheck (t_arr_precheck TG) TG)).
+Proof. reflexivity. Qed.
+
+(* the range check of the source in the fixed template: an ndarray element by element; anything else leaf by leaf unless it
+   contains a Python float (NumPy infers float64 for such a list; the cast then raises OverflowError for a Python number that
+   does not fit, so nothing out of range is stored: see slow_sound below) *)
+Lemma int_src_ok_f : forall e y, int_src_ok TGf e y =
+  match y with
+  | PArr _ l => forallb (int_leaf_ok e) l
+  | _ => match np_flat y with
+         | Ok sl => existsb is_pyfloat (snd sl) || forallb (int_leaf_ok e) (snd sl)
+         | Raise _ => true
+         end
+  end.
+Proof. intros e y. destruct y; reflexivity. Qed.
 
 Definition byte_elems (s : list N) : list pyval := map (fun c => PInt (Z.of_N (c mod 256))) s.
 
@@ -119,27 +145,38 @@ Proof.
 Qed.
 
 (* ---------------------------------------------------------------- and what is stored honours the full contract *)
-(* whatever the fixed template accepts, the scanned template (either value of either flag) accepts with the same result *)
-Lemma fixed_accept_live : forall fixed cap sl e x v,
-  assign_array TGf PW false fixed cap sl e x = Ok v -> assign_array TG PW false fixed cap sl e x = Ok v.
+Lemma slowF_sound : forall db fixed cap sl e y v, ftype_wok (FArr fixed cap sl e) = true ->
+  wfv PW db true y = true -> slowF fixed cap e y = Ok v ->
+  field_ok PW true (FArr fixed cap sl e) v = true /\ wfv PW db true v = true /\ is_none v = false.
 Proof.
-  intros fixed cap sl e x v H. rewrite assign_array_genf in H. rewrite assign_array_gen.
-  assert (Slow : forall y, slowF fixed cap e y = Ok v -> slowG false fixed cap e y = Ok v).
-  { intros y Hy. unfold slowF in Hy. unfold slowG. destruct (int_src_ok TGf e y) eqn:I; [|discriminate].
-    assert (int_src_ok TG e y = true) as ->.
-    { unfold int_src_ok in *. cbn [t_arr_precheck set_text_guard set_precheck negb orb] in I. rewrite I. apply orb_true_r. }
-    exact Hy. }
-  destruct (strconv sl x) as [| | | |s|s| | |dt' l|]; cbn [assignF assignG] in *; auto; try discriminate.
-  all: try (destruct (fast_bytesG e && lenG fixed (length s) cap); [exact H|discriminate]).
-  all: try (destruct (dtype_eqb dt' (dtype_of PW e) && lenG fixed (length l) cap); auto).
+  intros db fixed cap sl e y v Hw W H. unfold slowF in H. destruct (int_src_ok TGf e y); [|discriminate].
+  destruct (np_array (dtype_of PW e) y) as [l|] eqn:M; cbn [bind] in H; [|discriminate].
+  destruct (lenG fixed (length l) cap) eqn:Ll; [|discriminate]. destruct (float_src_ok TGf false e y); [|discriminate].
+  destruct (np_array_ok _ _ _ _ _ (dtype_of_wok _ _ _ _ Hw) W M) as (F & W').
+  refine (chkG_ok true false db fixed cap sl e l v _ Ll F W' H). split; [right; left; reflexivity|exact Hw].
 Qed.
 
 Theorem array_accept_sound : forall db fixed cap sl e x v, ftype_wok (FArr fixed cap sl e) = true ->
   wfv PW db true x = true -> assign_array TGf PW false fixed cap sl e x = Ok v ->
   field_ok PW true (FArr fixed cap sl e) v = true /\ wfv PW db true v = true /\ is_none v = false.
 Proof.
-  intros db fixed cap sl e x v Hw W H. apply fixed_accept_live in H.
-  eapply assign_array_ok; [|exact W|exact H]. split; [right; left; reflexivity|exact Hw].
+  intros db fixed cap sl e x v Hw W H. rewrite assign_array_genf in H.
+  assert (S : sideF true false (FArr fixed cap sl e)) by (split; [right; left; reflexivity|exact Hw]).
+  assert (W1 : wfv PW db true (strconv sl x) = true).
+  { unfold strconv. destruct sl; auto. destruct x; auto. }
+  destruct (strconv sl x) as [| | | |s|s| | |dt' l|] eqn:X; cbn [assignF] in H; try (eapply slowF_sound; eauto; fail);
+    try discriminate.
+  - destruct (fast_bytesG e && lenG fixed (length s) cap) eqn:C; [|discriminate].
+    apply andb_true_iff in C. destruct C as [Cb Cl].
+    destruct e as [[|w|w|w]|t]; cbn [fast_bytesG] in Cb; try discriminate.
+    eapply chkG_ok; [exact S| | | |exact H].
+    + unfold byte_elems. rewrite map_length. exact Cl.
+    + cbn [dtype_of]. apply byte_fits. lia.
+    + apply forallb_forall. intros y Hy. apply in_map_iff in Hy. destruct Hy as (c & <- & _). reflexivity.
+  - destruct (dtype_eqb dt' (dtype_of PW e) && lenG fixed (length l) cap) eqn:C; [|eapply slowF_sound; eauto].
+    apply andb_true_iff in C. destruct C as [Cd Cl]. apply dtype_eqb_eq in Cd. subst dt'.
+    cbn [wfv] in W1. apply andb_true_iff in W1. destruct W1 as [F Wl].
+    exact (chkG_ok _ _ _ _ _ _ _ _ _ S Cl F Wl H).
 Qed.
 
 (* ---------------------------------------------------------------- corollaries *)
@@ -219,3 +256,13 @@ Theorem numeric_text_fixed :
   assign_array TGf PW false true 1 false (EPrim (KU 8)) (PBytes [49%N; 50%N]) = Raise ValueError /\
   assign_array TGf PW false false 4 false (EPrim (KU 8)) (PBytes [49%N; 50%N; 51%N]) = Ok (PArr (DU 8) [PInt 49; PInt 50; PInt 51]).
 Proof. split; [|split]; vm_compute; reflexivity. Qed.
+
+(* the list-with-a-float exemption of the source check at work: accepted when every number fits (the cast truncates 1.0 to 1),
+   OverflowError from the cast otherwise - nothing outside the range is stored (array_accept_sound) *)
+Theorem float_in_list_example :
+  assign_array TGf PW false false 4 false (EPrim (KU 8)) (PList [PFloat 4607182418800017408; PInt 3]) = Ok (PArr (DU 8) [PInt 1; PInt 3]) /\
+  assign_array TGf PW false false 4 false (EPrim (KU 8)) (PList [PFloat 4607182418800017408; PInt 300]) = Raise OverflowError /\
+  assign_array TGf PW false false 4 false (EPrim (KU 8)) (PList [PInt 300]) = Raise ValueError /\
+  arr_accepts false 4 false (EPrim (KU 8)) (PList [PFloat 4607182418800017408; PInt 3]) = true /\
+  arr_accepts false 4 false (EPrim (KU 8)) (PList [PFloat 4607182418800017408; PInt 300]) = false.
+Proof. repeat (split; [vm_compute; reflexivity|]). vm_compute. reflexivity. Qed.
